@@ -349,6 +349,7 @@ func StartRPCLeg(kind, proto string, processor frugal.FProcessor, nsrv *NatsServ
 			if err != nil {
 				return nil, err
 			}
+			subsBefore := nsrv.S.NumSubscriptions()
 			eb := frugal.NewFNatsServerBuilder(econn, processor, leg.PF, []string{subject}).WithQueueGroup("verif-group")
 			esrv := eb.Build()
 			edone := make(chan struct{})
@@ -364,7 +365,7 @@ func StartRPCLeg(kind, proto string, processor frugal.FProcessor, nsrv *NatsServ
 			// wait until this instance is subscribed too
 			for i := 0; i < 2000; i++ {
 				econn.Flush()
-				if nsrv.Subscribers(subject) > extra {
+				if nsrv.S.NumSubscriptions() > subsBefore {
 					break
 				}
 				time.Sleep(2 * time.Millisecond)
